@@ -45,7 +45,9 @@ class Ctx:
         self._layouts = {}
         self.contracts_ok = None
 
-    def configs(self, quick=("std", "none"), thorough=("std", "alloc", "none")):
+    def configs(self, quick=("std", "alloc", "none"), thorough=("std", "alloc", "none")):
+        # every tier analyses all three build configurations: a divergence that exists only with
+        # `alloc` but without `std` is as much a violation as any other
         return list(thorough if self.tier == "thorough" else quick)
 
     def facts_dir(self, configs):
